@@ -414,7 +414,19 @@ def cell_cases(ctx):
                             yield ("cells", Ls, counts, layers, cap, kind, tuple(pos), charges)
 
 
+def check_veto_family(case):
+    """case = ("veto", kind, Ls, counts, layers): the far family as the real cell-veto handlers realise it -- the target
+    cell is the cell of the *cell-level unit* (the composite object, not its active point mass) translated by the
+    sampled offset, for every active cell, direction and alias-table row (evaluator shared with C18; composite objects
+    are placed so that the active point mass lies in another cell than its object)."""
+    from .c18 import check_cell_veto
+    (sig, n), fails = check_cell_veto(case)
+    return ("veto-family",) + tuple(map(str, sig)) + (n,), [("veto-" + k, m) for k, m in fails]
+
+
 def check_case(case):
+    if case[0] == "veto":
+        return check_veto_family(case)
     return check_cells(case) if case[0] == "cells" else check_factor_file(case)
 
 
@@ -425,29 +437,53 @@ def run(ctx):
     ff = list(factor_files(ctx))
     n1, sigs1, fails1 = par.run_cases(check_case, cc, ctx.cores, chunk=20)
     n2, sigs2, fails2 = par.run_cases(check_case, ff, ctx.cores, chunk=40)
+    vv = [("veto", "composite", (1.0, 2.0), (5, 4), 1), ("veto", "leaf", (1.0, 1.0), (4, 5), 1)]
+    if ctx.thorough:
+        vv += [("veto", "composite", (1.0, 1.0, 1.0), (3, 5, 7), 1)]
+    n3, sigs3, fails3 = par.run_cases(check_case, vv, ctx.cores, chunk=1)
+    fails2 = fails2 + fails3
     for key, case, msg in fails1 + fails2:
         res.add(key, {"case": enc(case)}, msg)
     partitions = sum(s[-1] for s in sigs1 if s)
+    veto_exec = sum(s[-1] for s in sigs3 if s)
     res.coverage = {
         "evaluations": n1 + n2, "cell_configurations": n1, "factor_files": n2,
-        "partition_checks": partitions,
+        "partition_checks": partitions, "cell_veto_handler_executions": veto_exec,
         "distinct_nontrivial": len(set(s[:-1] for s in sigs1 if s)) + len(sigs2),
         "rule": "(a) grids x neighbour layers {0,1,2} x occupant cap {1,2,unbounded} x {atoms, atoms+charge filter, "
                 "composite objects at cell level 1, charged leaves at cell level 2} x placements of 2-4 units on "
                 "cell-critical positions (centre, face, corner, periodic face, coincident units; subsampled "
                 "deterministically to <= 150 placements per setting in quick) x every sequence of <= 3 distinct active "
                 "units, partition checked after every change of the active unit; (b) factor files from <= 2 (3) lines "
-                "in every index order x every active point mass of 3 objects. distinct_nontrivial = distinct (kind, "
+                "in every index order x every active point mass of 3 objects; (c) the real cell-veto handlers (leaf and "
+                "composite-object level) for every active cell x direction x alias row: target = cell of the cell-level "
+                "unit + offset. distinct_nontrivial = distinct (kind, "
                 "dimension, layers, cap, units, coincident) settings + distinct file shapes",
         "samples": [enc(cc[0]), enc(ff[0]), enc(ff[-1])],
         "exhaustive": bool(ctx.thorough),
     }
+    # (d) the partition of the *pending* events inside explored runs of every configuration with a cell system
+    from . import _enva
+    from .. import specs as specmod
+    st = _enva.run_monitors(ctx, res, ("C10",), spec_filter=specmod.has_cells, prefixes=("C10:",), resume_legs=(),
+                            quick_baselines=[ctx.seed % 4])
+    res.coverage["evaluations"] += st["executions"]
+    res.coverage["run_level"] = {"executions": st["executions"], "configurations": len(st["per_spec"]),
+                                 "partitions_checked": st.get("c10_partitions", 0),
+                                 "cell_systems_without_far_family_skipped": st.get("c10_skipped_cell_systems", 0),
+                                 "distinct_outcomes": len(st["outcomes"])}
+    res.coverage["rule"] += ("; (d) engine A on the %d configurations with a cell system: at every leg the pending "
+                             "nearby + surplus + far events cover every other recorded unit exactly once"
+                             % len(st["per_spec"]))
     res.assumptions = ["estimators are replaced by a constant stub (the taggers and the occupancy never look at bounds)",
                        "composite objects are dipoles with one charged and one neutral point mass"]
     return res
 
 
 def replay(ctx, case):
+    if "spec" in case:
+        from . import _enva
+        return _enva.replay(ctx, case, ("C10",))
     c = dec(case["case"])
     c = _detuple(c)
     _, fails = par.guarded(check_case)(c)
